@@ -73,8 +73,8 @@ macro_rules! parts {
     }};
 }
 
-static SYS: LockStep = LockStep { property: "C04", probes: true, seed: None, via_feed: false };
-static SYS_MED: LockStep = LockStep { property: "C04", probes: false, seed: None, via_feed: false };
+static SYS: LockStep = LockStep { property: "C04", probes: true, seed: None, via_feed: false, merged: false };
+static SYS_MED: LockStep = LockStep { property: "C04", probes: false, seed: None, via_feed: false, merged: false };
 
 fn alpha_medium(cfg: &Cfg) -> Vec<Op> {
     let mut v = alpha(cfg);
@@ -218,8 +218,8 @@ fn charset_table(ctx: &Ctx, rep: &mut Report) {
     rep.parts.push(json!({"part":"charset-table","cases":n,"all_scalars_from_U+00A0":all.len()}));
 }
 
-static SYS_CORE: LockStep = LockStep { property: "C04", probes: false, seed: None, via_feed: false };
-static SYS_SPARSE: LockStep = LockStep { property: "C04", probes: false, seed: Some(&super::sweep::fill_sparse), via_feed: false };
+static SYS_CORE: LockStep = LockStep { property: "C04", probes: false, seed: None, via_feed: false, merged: false };
+static SYS_SPARSE: LockStep = LockStep { property: "C04", probes: false, seed: Some(&super::sweep::fill_sparse), via_feed: false, merged: false };
 
 /// the core of printing - wrap, insert, repeat, wide and zero-width characters, a region
 /// that ends above the last row - over a small alphabet, deeper
@@ -269,7 +269,7 @@ fn core_part(tier: Tier) -> Part<'static, LockStep> {
     }
 }
 
-static SYS_SWEEP: LockStep = LockStep { property: "C04", probes: false, seed: Some(&super::sweep::fill), via_feed: false };
+static SYS_SWEEP: LockStep = LockStep { property: "C04", probes: false, seed: Some(&super::sweep::fill), via_feed: false, merged: false };
 
 fn alpha_sweep(cfg: &Cfg) -> Vec<Op> {
     let mut v = super::sweep::placements(cfg, false);
@@ -277,7 +277,7 @@ fn alpha_sweep(cfg: &Cfg) -> Vec<Op> {
     v
 }
 
-static SYS_MODES: LockStep = LockStep { property: "C04", probes: false, seed: None, via_feed: false };
+static SYS_MODES: LockStep = LockStep { property: "C04", probes: false, seed: None, via_feed: false, merged: false };
 
 fn alpha_wide(cfg: &Cfg) -> Vec<Op> {
     super::sweep::layered(super::sweep::wide_placements(cfg), super::sweep::wide_print_funcs(cfg))
